@@ -5,6 +5,7 @@ from engine.rulelib import fnview
 from engine.cfg import render, strip_ref, peel, subexprs
 
 CRATES = ["lightning_signer", "vls_protocol_signer"]
+OPTIONAL_CRATES = ["vls_persist"]
 LS = "lightning_signer::"
 SVT = LS + "policy::simple_validator::SimpleValidator"
 VAL = LS + "policy::validator::Validator"
@@ -38,6 +39,9 @@ CLAIM = {
 }
 
 
+CLAIM["text"] += (" (R7.9) restart clause, where the build has a persistence layer: every persisted field of channel entry, node "
+                  "state, tracker and monitors is serialised and restored into the same slot (same obligations as C11 R11.2).")
+
 def run(ctx):
     ctx.explanation = CLAIM["text"]
     ctx.not_decided = "numeric epsilon / fee arithmetic at extremes; ClosingTransaction construction inside LDK"
@@ -49,6 +53,7 @@ def run(ctx):
     r76(ctx)
     r_content(ctx)
     r_filter(ctx)
+    r_restore(ctx)
 
 
 def r71(ctx):
@@ -409,3 +414,8 @@ def r_filter(ctx):
     Err unless Warn), evaluated here because an operator's `error` pin on this property's tags depends on them."""
     from rules import C05 as _c05
     _c05.r54(ctx, rid="R7.8")
+
+
+def r_restore(ctx):
+    from rules import C11 as _c11
+    _c11.shared_restore(ctx, "R7.9", "the upfront shutdown script fixed at setup, the recorded commitment contents and the closed flag are what a restarted signer validates a close against.")
